@@ -155,6 +155,8 @@ def check(chk: Check) -> None:
             rdf11 = name in ("long-mixed", "repeats")
             jobs.append(dict(physical=physical, name=name, stmts=stmts, integs=["generic"] + (["rdflib"] if rdf11 else [])))
     for res in pmap(run_reframe, jobs, min_parallel=4):
+        if res is None:
+            continue
         chk.functions.update(res["funcs"])
         jb = res["job"]
         for path in res["paths"]:
@@ -204,6 +206,8 @@ def check(chk: Check) -> None:
     for sizes in ((2, 1), (1, 2, 1)):
         wjobs.append(dict(integ="rdflib", physical=1, logical=3, sizes=sizes, frame_size=250, dataset_of_graphs=True))
     for res in pmap(run_grouped_write, wjobs, min_parallel=4):
+        if res is None:
+            continue
         jb = res["job"]
         inst = f"{jb['integ']} physical={jb['physical']} logical={jb['logical']} sinks={jb['sizes']} frame_size={jb['frame_size']}"
         for p in res["paths"]:
